@@ -50,7 +50,8 @@ def run(run, replay=None):
             n += 1
     # the specification's own example files
     import glob
-    for fn in sorted(glob.glob('/repo/docs/spec/example-diffs/*.diff')):
+    import os
+    for fn in sorted(glob.glob(os.path.join(os.environ.get('VERIF_REPO', '/repo'), 'docs/spec/example-diffs/*.diff'))):
         data = open(fn, 'rb').read()
         cases.append(rdriver.case(n, 'exact', data, cat))
         run.count(('example', fn), nontrivial=True)
